@@ -17,6 +17,7 @@ from .. import affine, symex
 
 UTIL = 'pylatexenc._util'
 WALKER = 'pylatexenc.latexwalker._walker'
+from .. import core as _core20
 
 
 def run(ctx):
@@ -283,6 +284,14 @@ def run(ctx):
                     continue
                 it = symex.item_def(unparse(v_), cs.env)
                 call_ = it[3] if it else (v_ if isinstance(v_, ast.Call) else None)
+                # the lookup may sit in a module-level helper called with the position: helper(node, P)
+                if isinstance(call_, ast.Call) and isinstance(call_.func, ast.Name) and call_.func.id in exm_.functions:
+                    h_ = exm_.functions[call_.func.id]
+                    hp_ = [a_.arg for a_ in h_.args.args]
+                    inner_ = [c_ for c_ in ast.walk(h_) if isinstance(c_, ast.Call) and call_name(c_) == 'pos_to_lineno_colno'
+                              and c_.args and isinstance(c_.args[0], ast.Name) and c_.args[0].id in hp_]
+                    if inner_ and hp_.index(inner_[0].args[0].id) < len(call_.args):
+                        call_ = ast.Call(func=inner_[0].func, args=[call_.args[hp_.index(inner_[0].args[0].id)]], keywords=[])
                 if not (isinstance(call_, ast.Call) and call_name(call_) == 'pos_to_lineno_colno' and call_.args):
                     continue
                 n_ln += 1
@@ -299,6 +308,57 @@ def run(ctx):
                    construct='%s: line/column source' % q_)
     if not n_ln:
         ctx.unknown('R20i', exm_, None, 'no method sets line/column from a position', construct='line/column source')
+
+    # ---- R20l: every parsing context locates the error, whatever it was opened for
+    ctx.rule('R20l', 'the context manager that fills in line and column of a passing parse error (`e.lineno, e.colno = '
+                     'pos_to_lineno_colno(e.pos)` in __exit__) does so under tests on the ERROR only (is it a parse error, has '
+                     'it a position, is it not located yet): not under a test on the context\'s own state (is this a named '
+                     'context), which leaves errors raised at top level or re-created by an inner parser without line/column', 1)
+    n_fl = 0
+    for q_, f_ in sorted(w.functions.items()):
+        if not q_.endswith('.__exit__'):
+            continue
+        exn_ = {a_.arg for a_ in f_.args.args[1:]}
+        chg = True
+        while chg:
+            chg = False
+            for st_ in iter_own(f_):
+                if isinstance(st_, ast.Assign) and len(st_.targets) == 1 and isinstance(st_.targets[0], ast.Name) and \
+                        isinstance(st_.value, ast.Name) and st_.value.id in exn_ and st_.targets[0].id not in exn_:
+                    exn_.add(st_.targets[0].id)
+                    chg = True
+        for st_ in iter_own(f_):
+            if not (isinstance(st_, ast.Assign) and any(isinstance(t_, ast.Attribute) and t_.attr in ('lineno', 'colno')
+                                                        for tt_ in st_.targets for t_ in ast.walk(tt_))
+                    and any(isinstance(c_, ast.Call) and call_name(c_) == 'pos_to_lineno_colno' for c_ in ast.walk(st_.value))):
+                continue
+            n_fl += 1
+            bad_t = None
+            ch_ = st_
+            for p_ in _core20.parents(st_):
+                if p_ is f_:
+                    break
+                if isinstance(p_, (ast.If, ast.While)):
+                    for x_ in ast.walk(p_.test):
+                        if (isinstance(x_, ast.Attribute) and isinstance(x_.value, ast.Name) and x_.value.id == 'self') or \
+                                (isinstance(x_, ast.Name) and x_.id not in exn_ and
+                                 x_.id not in ('hasattr', 'getattr', 'isinstance', 'None') and not x_.id[:1].isupper()
+                                 and not any(isinstance(a_, ast.Assign) and any(isinstance(t_, ast.Name) and t_.id == x_.id
+                                                                                 for t_ in a_.targets)
+                                             and all(isinstance(n_, ast.Name) and (n_.id in exn_ or n_.id in ('getattr', 'hasattr'))
+                                                     or not isinstance(n_, ast.Name) for n_ in ast.walk(a_.value))
+                                             and not any(isinstance(n_, ast.Attribute) and isinstance(n_.value, ast.Name) and
+                                                         n_.value.id == 'self' for n_ in ast.walk(a_.value))
+                                             for a_ in iter_own(f_))):
+                            bad_t = bad_t or p_.test
+                ch_ = p_
+            ctx.decide('R20l', bad_t is None, w, st_, '%s: line/column filled in under tests on the error only' % q_,
+                       '%s fills in e.lineno / e.colno only under the test `%s`, which is about the context and not about the '
+                       'error: an error that passes only contexts for which the test is false (the top-level context, an '
+                       'unnamed one) escapes from a strict parse with lineno and colno None'
+                       % (q_, short(bad_t, 60) if bad_t is not None else ''), construct='%s: line/column fill-in' % q_)
+    if not n_fl:
+        ctx.unknown('R20l', w, None, 'no __exit__ fills in line/column', construct='line/column fill-in')
 
     # ---- R20j: an explicit line/column belongs to the position it is passed with
     ctx.rule('R20j', 'wherever an error is constructed with explicit lineno= / colno=, they are those of the pos= passed in the same '
@@ -620,7 +680,8 @@ def _r20c(ctx, u, f):
             call = ast.parse(bis[0], mode='eval').body
             ok_line = len(call.args) == 2 and unparse(call.args[1]) == pos
             table = unparse(call.args[0])
-        if not ok_line and not bis:
+        if not ok_line and not bis and not any(isinstance(c_, ast.Call) and call_name(c_) in ('bisect_right', 'bisect')
+                                               for c_ in ast.walk(f)):
             # no bisect at all: a hand-written search.  Its correctness needs a loop invariant, which is out of reach;
             # one thing is decidable from its shape: a result variable that only ever takes the value of
             # `mid = (r + hi) // 2` stays below the initial `hi`, so with hi starting at len(T) - 1 the last line can
